@@ -49,9 +49,15 @@ def _map(ctx, m):
     if norm(lp.iter) != 'pytz.all_timezones':
         ctx.violation('C17.D1', '%s::_map_timezones' % FZ, norm(lp.iter), 'zones are mapped from another source than pytz\'s list',
                       'the map is not built from pytz.all_timezones', file=FZ, line=lp.lineno, engine='E6')
+    # the map is the value returned; the work list is the copy of the official name set
+    rets = [norm(x.value) for x in body_wo_doc(fn) if isinstance(x, ast.Return) and x.value is not None]
+    mapvar = rets[-1] if rets else 'tz_map'
+    todos = [norm(x.targets[0]) for x in body_wo_doc(fn) if isinstance(x, ast.Assign) and len(x.targets) == 1
+             and norm(x.value) in ('HAYSTACK_TIMEZONES_SET.copy()', 'set(HAYSTACK_TIMEZONES_SET)', 'set(HAYSTACK_TIMEZONES)')]
+    todo = todos[0] if todos else 'todo'
     stores = []
     for n in ast.walk(lp):
-        if isinstance(n, ast.Assign) and isinstance(n.targets[0], ast.Subscript) and norm(n.targets[0].value) == 'tz_map':
+        if isinstance(n, ast.Assign) and isinstance(n.targets[0], ast.Subscript) and norm(n.targets[0].value) == mapvar:
             stores.append(n)
     ctx.count('stores into the zone map', len(stores))
     ctx.floor('stores into the zone map', len(stores), 2)
@@ -61,7 +67,9 @@ def _map(ctx, m):
         parent = getattr(st, '_parent', None)
         guard = norm(parent.test) if isinstance(parent, ast.If) else None
         sibs = [norm(x) for x in parent.body] if isinstance(parent, ast.If) else []
-        ok = val == var and guard == '%s in todo' % key and 'todo.discard(%s)' % key in sibs and sibs and sibs[-1] == 'continue'
+        ok = val == var and guard == '%s in %s' % (key, todo) and ('%s.discard(%s)' % (todo, key) in sibs
+                                                                   or '%s.remove(%s)' % (todo, key) in sibs) \
+            and sibs and sibs[-1] == 'continue'
         if ok:
             ctx.ob('C17.D1', 'tz_map[%s] = %s only while %s is still unmapped; then it is discarded and the zone is done'
                    % (key, var, key), True, '%s:%d' % (FZ, st.lineno))
@@ -97,7 +105,14 @@ def _map(ctx, m):
     try:
         tz = m.func('zoneinfo', 'timezone')
         t = norm(tz)
-        if 'except KeyError:\n        raise ValueError' in t and 'return pytz.timezone(tz_name)' in t:
+        hp = tz.args.args[0].arg
+        lookups = [x for x in ast.walk(tz) if isinstance(x, ast.Assign) and len(x.targets) == 1 and isinstance(x.targets[0], ast.Name)
+                   and isinstance(x.value, ast.Subscript) and norm(x.value.slice) == hp]
+        zv = lookups[0].targets[0].id if lookups else None
+        in_try = bool(lookups) and isinstance(getattr(lookups[0], '_parent', None), ast.Try) and any(
+            h.type is not None and norm(h.type) == 'KeyError' and h.body and isinstance(h.body[-1], ast.Raise)
+            and norm(h.body[-1].exc).startswith('ValueError') for h in lookups[0]._parent.handlers)
+        if in_try and zv and 'return pytz.timezone(%s)' % zv in t:
             ctx.ob('C17.D1', 'timezone(name) looks the name up in the map; unknown names raise ValueError', True,
                    '%s:%d' % (FZ, tz.lineno))
         else:
@@ -187,6 +202,9 @@ def _timezone_name(ctx, m, rule='C17.D3'):
     dt = fn.args.args[0].arg
     body = body_wo_doc(fn)
     where = '%s:%d' % (FZ, fn.lineno)
+    rmaps = [norm(x.targets[0]) for x in body if isinstance(x, ast.Assign) and len(x.targets) == 1
+             and isinstance(x.value, ast.Call) and norm(x.value.func) == 'get_tz_rmap']
+    rmap = rmaps[0] if rmaps else 'tz_rmap'
     bad, unknown, nc = X.escaping(fn)
     if bad:
         call, exc = bad[0]
@@ -246,7 +264,7 @@ def _timezone_name(ctx, m, rule='C17.D3'):
                           'a +05:45 fixed-offset value is written with the first scanned zone, whatever its offset',
                           'a return inside the fallback scan is not dominated by the offset-equality test (guard: %r)' % t,
                           file=FZ, line=r.lineno, engine='E6')
-    if norm(lp.iter) in ('list(tz_rmap.items())', 'tz_rmap.items()'):
+    if norm(lp.iter) in ('list(%s.items())' % rmap, '%s.items()' % rmap):
         ctx.ob(rule, 'the scan ranges over the mapped zones only', True, '%s:%d' % (FZ, lp.lineno))
     # every return of a zone must be one of the three justified ones (fast path, UTC shortcut, guarded scan)
     justified = set()
@@ -256,9 +274,13 @@ def _timezone_name(ctx, m, rule='C17.D3'):
         if isinstance(n, ast.Return) and isinstance(n.value, ast.Constant) and n.value.value == 'UTC':
             justified.add(id(n))
     tries0 = [x for x in body if isinstance(x, ast.Try)]
+    zone_var = None
     if tries0:
+        for st in tries0[0].body:
+            if isinstance(st, ast.Assign) and len(st.targets) == 1 and norm(st.value) == '%s.tzinfo.zone' % dt:
+                zone_var = norm(st.targets[0])
         for n in ast.walk(tries0[0]):
-            if isinstance(n, ast.Return) and norm(n.value) == 'tz_rmap[tz_name]':
+            if isinstance(n, ast.Return) and norm(n.value) in ('%s[%s]' % (rmap, zone_var), '%s[%s.tzinfo.zone]' % (rmap, dt)):
                 justified.add(id(n))
     for n in walk_no_nested(fn):
         if isinstance(n, ast.Return) and id(n) not in justified and n.value is not None:
@@ -272,7 +294,8 @@ def _timezone_name(ctx, m, rule='C17.D3'):
                           % norm(n.value), file=FZ, line=n.lineno, engine='E6')
     # fast path
     tries = [x for x in body if isinstance(x, ast.Try)]
-    if tries and [norm(x) for x in tries[0].body] == ['tz_name = %s.tzinfo.zone' % dt, 'return tz_rmap[tz_name]']:
+    if tries and [norm(x) for x in tries[0].body] in (['%s = %s.tzinfo.zone' % (zone_var, dt), 'return %s[%s]' % (rmap, zone_var)],
+                                                       ['return %s[%s.tzinfo.zone]' % (rmap, dt)]):
         hk = sorted(norm(h.type) for h in tries[0].handlers if h.type is not None)
         if hk == ['AttributeError', 'KeyError']:
             ctx.ob(rule, 'the pytz fast path falls through on KeyError/AttributeError', True, '%s:%d' % (FZ, tries[0].lineno))
